@@ -717,3 +717,131 @@ Lemma hrun_then_list (early : bool) (prog : list (hstepd V Nm)) (st : hstate) (i
 Proof. intros H. eapply hmat_list; [eapply hrun_keeps; eassumption|reflexivity]. Qed.
 
 End Steps.
+
+(* ====================================================================== *)
+(* Round 3: the caller's argument objects and append()                     *)
+(* ====================================================================== *)
+Section ArgsProofs.
+Set Default Proof Using "Type".
+Variable V : Type.
+Variable veqb : V -> V -> bool.
+Variable dflt : V.
+Variable Nm : Type.
+Variable nmeqb : Nm -> Nm -> bool.
+
+Notation row := (list V).
+Notation astate := (astate V Nm).
+Notation astep := (astep V veqb dflt Nm nmeqb).
+Notation arun := (arun V veqb dflt Nm nmeqb).
+Notation via_hstep := (via_hstep V veqb dflt Nm nmeqb).
+Notation hstep := (hstep V veqb dflt Nm nmeqb).
+
+Lemma via_hstep_pool (early : bool) (st : astate) (src : nat) (o : hop V Nm) :
+  a_pool (fst (via_hstep early st src o)) = a_pool st.
+Proof. unfold C03_Heap.via_hstep. destruct (hstep early (a_h st) (mkHStep src o)). reflexivity. Qed.
+
+Lemma via_hstep_h (early : bool) (st : astate) (src : nat) (o : hop V Nm) :
+  a_h (fst (via_hstep early st src o)) = fst (hstep early (a_h st) (mkHStep src o)).
+Proof. unfold C03_Heap.via_hstep. destruct (hstep early (a_h st) (mkHStep src o)). reflexivity. Qed.
+
+(* the code as it stands (a list handed to collect is copied first): no call alters any of the
+   caller's lists *)
+Lemma astep_pool_kept (early : bool) (st : astate) (s : astepd V Nm) :
+  a_pool (fst (astep early true st s)) = a_pool st.
+Proof.
+  destruct s as [src o]. unfold C03_Heap.astep. cbn [a_src a_op].
+  destruct o as [o|a lim|a|a|a|a|r|a].
+  - apply via_hstep_pool.
+  - destruct (via_hstep early st src _) as [st1 x]. reflexivity.
+  - destruct (via_hstep early st src _) as [st1 x]. reflexivity.
+  - destruct (all_some _); [apply via_hstep_pool|reflexivity].
+  - apply via_hstep_pool.
+  - apply via_hstep_pool.
+  - destruct (nth_error _ _) as [fr|]; [|reflexivity].
+    destruct (kind (hsch fr)); [|reflexivity]. destruct (hrows fr); reflexivity.
+  - reflexivity.
+Qed.
+
+Lemma arun_pool_kept (early : bool) (prog : list (astepd V Nm)) :
+  forall st : astate, a_pool (fst (arun early true st prog)) = a_pool st.
+Proof.
+  induction prog as [|s r IH]; intros st; [reflexivity|].
+  cbn [C03_Heap.arun]. pose proof (astep_pool_kept early st s) as K.
+  destruct (astep early true st s) as [st1 o]. cbn [fst] in K.
+  specialize (IH st1). destruct (arun early true st1 r) as [st2 os]. cbn [fst] in *. congruence.
+Qed.
+
+(* what the in-place rewrite loop of collect() leaves in the list it runs on: exactly the
+   positions (in THIS frame) that resolve_cols - the functional reading used by code_collect -
+   computes; so without the copy the caller's names would be replaced by positions of this frame *)
+Lemma rewrite_cols_resolve (src : list Nm) (v : argobj Nm) :
+  match resolve_cols Nm nmeqb src (map (as_colref Nm) v) with
+  | Ok zs => exists v', rewrite_cols Nm nmeqb src v = (v', true) /\ map (as_colref Nm) v' = map CIdx zs
+  | Raise _ => snd (rewrite_cols Nm nmeqb src v) = false
+  end.
+Proof.
+  induction v as [|x v IH]; cbn [map resolve_cols rewrite_cols].
+  - exists []. split; reflexivity.
+  - destruct x as [n|z|b]; cbn [as_colref resolve_cols rewrite_cols].
+    + destruct (index_of Nm nmeqb n src) as [p|]; [|reflexivity].
+      destruct (resolve_cols Nm nmeqb src (map (as_colref Nm) v)) as [zs|e].
+      * destruct IH as (v' & E & M). rewrite E. eexists; split; [reflexivity|]. cbn [map as_colref]. now rewrite M.
+      * destruct (rewrite_cols Nm nmeqb src v) as [r' ok]. cbn [snd] in *. exact IH.
+    + destruct (resolve_cols Nm nmeqb src (map (as_colref Nm) v)) as [zs|e].
+      * destruct IH as (v' & E & M). rewrite E. eexists; split; [reflexivity|]. cbn [map as_colref]. now rewrite M.
+      * destruct (rewrite_cols Nm nmeqb src v) as [r' ok]. cbn [snd] in *. exact IH.
+    + destruct (resolve_cols Nm nmeqb src (map (as_colref Nm) v)) as [zs|e].
+      * destruct IH as (v' & E & M). rewrite E. eexists; split; [reflexivity|]. cbn [map as_colref]. now rewrite M.
+      * destruct (rewrite_cols Nm nmeqb src v) as [r' ok]. cbn [snd] in *. exact IH.
+Qed.
+
+(* a list-backed frame is altered by no call of a session - whatever objects the calls are
+   handed, copied or not - except an append() to that very frame, which adds the row at its end *)
+Lemma astep_keeps_lists (early copy : bool) (st : astate) (s : astepd V Nm) (j : nat) (sc : schema Nm) (l : list row) :
+  nth_error (henv (a_h st)) j = Some (mkH sc (RL l)) ->
+  (forall r, a_op s = AAppend r -> Nat.modulo (a_src s) (length (henv (a_h st))) <> j) ->
+  nth_error (henv (a_h (fst (astep early copy st s)))) j = Some (mkH sc (RL l)).
+Proof.
+  intros H Hnot. destruct s as [src o]. unfold C03_Heap.astep. cbn [a_src a_op] in *.
+  destruct o as [o|a lim|a|a|a|a|r|a].
+  - rewrite via_hstep_h. now apply hstep_keeps.
+  - pose proof (via_hstep_h early st src (HOp (Collect (map (as_colref Nm) (pool_get V Nm st a)) lim))) as K.
+    destruct (via_hstep early st src _) as [st1 x]. cbn [fst a_h] in *. rewrite K. now apply hstep_keeps.
+  - pose proof (via_hstep_h early st src (HOp (GetItem (map (as_colref Nm) (pool_get V Nm st a))))) as K.
+    destruct (via_hstep early st src _) as [st1 x]. cbn [fst a_h] in *. rewrite K. now apply hstep_keeps.
+  - destruct (all_some _); [|exact H]. rewrite via_hstep_h. now apply hstep_keeps.
+  - rewrite via_hstep_h. now apply hstep_keeps.
+  - rewrite via_hstep_h. now apply hstep_keeps.
+  - specialize (Hnot r eq_refl).
+    destruct (nth_error (henv (a_h st)) (Nat.modulo src (length (henv (a_h st))))) as [fr|] eqn:E; [|exact H].
+    destruct (kind (hsch fr)); [|exact H]. destruct (hrows fr) as [l0|g]; [|exact H].
+    cbn [fst a_h henv]. unfold set_rows. rewrite E. now rewrite nth_error_upd_neq.
+  - exact H.
+Qed.
+
+Lemma astep_append (early copy : bool) (st : astate) (src i : nat) (sc : schema Nm) (l : list row) (r : row) :
+  Nat.modulo src (length (henv (a_h st))) = i ->
+  nth_error (henv (a_h st)) i = Some (mkH sc (RL l)) -> kind sc = Untyped ->
+  astep early copy st (mkAStep src (AAppend r)) =
+  (mkAS (mkHS (upd i (mkH sc (RL (l ++ [r]))) (henv (a_h st))) (hheap (a_h st))) (a_pool st), AOut (HNew [])).
+Proof.
+  intros Hi H Hk. subst i. unfold C03_Heap.astep. cbn [a_src a_op]. rewrite H. cbn [hsch hrows]. rewrite Hk.
+  now rewrite (set_rows_at V Nm _ _ _ _ _ H).
+Qed.
+
+Lemma arun_keeps_lists (early copy : bool) (prog : list (astepd V Nm)) :
+  forall (st : astate) (j : nat) (sc : schema Nm) (l : list row),
+  nth_error (henv (a_h st)) j = Some (mkH sc (RL l)) ->
+  (forall s r, In s prog -> a_op s <> AAppend r) ->
+  nth_error (henv (a_h (fst (arun early copy st prog)))) j = Some (mkH sc (RL l)).
+Proof.
+  induction prog as [|s r IH]; intros st j sc l H Hno; [exact H|].
+  cbn [C03_Heap.arun].
+  assert (K : nth_error (henv (a_h (fst (astep early copy st s)))) j = Some (mkH sc (RL l))).
+  { apply astep_keeps_lists; [exact H|]. intros r0 E. exfalso. exact (Hno s r0 (or_introl eq_refl) E). }
+  destruct (astep early copy st s) as [st1 o]. cbn [fst] in K.
+  specialize (IH st1 j sc l K (fun s0 r0 Hin => Hno s0 r0 (or_intror Hin))).
+  destruct (arun early copy st1 r) as [st2 os]. exact IH.
+Qed.
+
+End ArgsProofs.
